@@ -47,6 +47,11 @@ CLAIMED["C04"] = ("exploration",
    "Only the directions the statement gives are asserted (nothing is demanded of the capability sets when neither credentials nor cap dropping were requested; the bounding set is untouched by the code). Ptrace/StopBeforeSeccomp are not combined with a new pid namespace (documented limitation) nor StopBeforeSeccomp with a SyncFunc outside the ptrace+seccomp copy (Start blocks by construction).",
    "generator-driven lattice enumeration + property-based testing (rapid); probe self-report and /proc observation", "§3 C04")
 
+CLAIMED["C07"] = ("fault_enumeration",
+   "Every launch step that can be made to fail with real inputs (21 injections: clone into a bad cgroup fd, overlapping id map, denied setgroups, unmapped gid/uid, closed descriptor, ctty on a non-tty, missing pivot root, mount k with a missing source or a target below a file, missing work dir, rlimit k with soft>hard or above the hard limit, malformed/empty filter, failing callback, missing/non-executable/truncated/directory executable, and no failure) is crossed with 8 launch configurations (enumerated) and with random configurations; the container variant crosses SyncFunc {nil, ok, failing} x SyncAfterExec x six targets. Asserted: the error names the step (ChildError Location/Index/errno or the callback's own error), the marker file and report pipe show the target never ran, /proc/self/task/*/children is unchanged on return, the callback sees the launcher image / the right parent / the pid the target later reports and finishes before the marker's mtime.",
+   "Steps that cannot be made to fail with real inputs as root (setsid, PR_SET_NO_NEW_PRIVS, capset, PTRACE_TRACEME) are not injected (no fault hook is added). Ptrace/stop-before-seccomp configurations return from Start before execve by design and are covered by C09/C15's tracer runs.",
+   "fault enumeration by real inputs + property-based testing (rapid)", "§3 C07")
+
 NOT_YET = {}
 
 def main():
